@@ -425,6 +425,11 @@ class QueryScheduler:
                 <= refresh_time_millis - current.when_millis
                 <= self._min_time_between_queries_millis
             ):
+                # The scheduled time is kept, but the rescue queries that
+                # follow it are spaced by the TTL and stop at the expire
+                # time of the record that is in the cache now
+                current.ttl = pointer.ttl
+                current.expire_time_millis = pointer.get_expiration_time(100)
                 return
             current.cancelled = True
             del self._next_scheduled_for_alias[pointer.alias]
